@@ -500,6 +500,7 @@ type funcFacts struct {
 	chans    []string // make(chan T, n) -> "T/n" ("T/0" when unbuffered)
 	sends    int
 	writes   []string // assignments to package-level variables
+	events   []string // ordered channel sends/receives, goroutine starts and Close() calls (only kept when a channel is involved)
 }
 
 func (p *pkg) funcFacts(globals map[string]bool) []funcFacts {
@@ -562,6 +563,9 @@ func (p *pkg) funcFacts(globals map[string]bool) []funcFacts {
 						}
 					}
 				case *ast.CallExpr:
+					if se, ok := x.Fun.(*ast.SelectorExpr); ok && se.Sel.Name == "Close" {
+						ff.events = append(ff.events, "close:"+exprString(se.X))
+					}
 					if id, ok := x.Fun.(*ast.Ident); ok {
 						if id.Name == "panic" {
 							ff.panics++
@@ -578,8 +582,14 @@ func (p *pkg) funcFacts(globals map[string]bool) []funcFacts {
 					}
 				case *ast.GoStmt:
 					ff.gos++
+					ff.events = append(ff.events, "go")
 				case *ast.SendStmt:
 					ff.sends++
+					ff.events = append(ff.events, "send:"+exprString(x.Chan)+"<-"+exprString(x.Value))
+				case *ast.UnaryExpr:
+					if x.Op == token.ARROW {
+						ff.events = append(ff.events, "recv:"+exprString(x.X))
+					}
 				case *ast.AssignStmt:
 					for _, l := range x.Lhs {
 						root := l
@@ -891,6 +901,29 @@ func main() {
 				cs = append(cs, leanStr(c))
 			}
 			fmt.Fprintf(&f, "(%s, %d, [%s], %d)", leanStr(ff.id), ff.gos, strings.Join(cs, ", "), ff.sends)
+		}
+		f.WriteString("]\n")
+		fmt.Fprintf(&f, "/-- order of channel operations, goroutine starts and Close() calls in functions that use a channel -/\ndef %sChanEvents : List (String × List String) := [", pk.name)
+		first = true
+		for _, ff := range facts {
+			uses := false
+			for _, e := range ff.events {
+				if strings.HasPrefix(e, "send:") || strings.HasPrefix(e, "recv:") {
+					uses = true
+				}
+			}
+			if !uses {
+				continue
+			}
+			if !first {
+				f.WriteString(", ")
+			}
+			first = false
+			var es []string
+			for _, e := range ff.events {
+				es = append(es, leanStr(e))
+			}
+			fmt.Fprintf(&f, "(%s, [%s])", leanStr(ff.id), strings.Join(es, ", "))
 		}
 		f.WriteString("]\n")
 		fmt.Fprintf(&f, "def %sGlobals : List String := [", pk.name)
